@@ -87,3 +87,14 @@ pub fn price_path(
 ) -> Option<usize> {
     crate::encodation::verif_price_path(data, symbol_list, path)
 }
+
+/// Like [price_path], for an encoder that has already written `written` codewords
+/// (macro, FNC1 or ECI header) before the data starts.
+pub fn price_path_after(
+    data: &[u8],
+    written: usize,
+    symbol_list: &crate::SymbolList,
+    path: &[(usize, crate::EncodationType)],
+) -> Option<usize> {
+    crate::encodation::verif_price_path_after(data, written, symbol_list, path)
+}
